@@ -295,7 +295,10 @@ def r2_siblings(ctx):
             src = derives(b.node, tgt.value, stop=b.params)
             kinds = set()
             for n in walk_no_nested(b.node):
-                if isinstance(n, ast.For) and isinstance(n.target, ast.Name) and (n.target.id == root):
+                # the loop that binds the object stored into: the one that encloses the store (another loop of the function may
+                # re-use the same variable name for the entries of another section)
+                if isinstance(n, ast.For) and isinstance(n.target, ast.Name) and (n.target.id == root) and \
+                        any(x is stmt for x in ast.walk(n)):
                     it = n.iter
                     kk = it.slice if isinstance(it, ast.Subscript) else (
                         it.args[0] if isinstance(it, ast.Call) and it.args else None)
@@ -647,6 +650,11 @@ def r8_loader_reads(ctx):
                 carried |= {k.value for k in d.keys if isinstance(k, ast.Constant)}
             if isinstance(d, ast.Call) and isinstance(d.func, ast.Attribute) and d.func.attr in ('pop', 'get') and d.args and isinstance(d.args[0], ast.Constant):
                 carried.add(d.args[0].value)
+            # a key chosen among a literal tuple of names (`for name in ('cr', 'g0') if name in ..`, `in ('cr', 'g0')`) carries each
+            if isinstance(d, (ast.comprehension,)) and isinstance(d.iter, (ast.Tuple, ast.List)) and all(isinstance(e, ast.Constant) and isinstance(e.value, str) for e in d.iter.elts):
+                carried |= {e.value for e in d.iter.elts}
+            if isinstance(d, ast.Compare) and len(d.ops) == 1 and isinstance(d.ops[0], ast.In) and isinstance(d.left, ast.Constant) and isinstance(d.left.value, str):
+                carried.add(d.left.value)
     reads = set()
     if dvar:
         for n in [x for s in branch[0].body for x in ast.walk(s)]:
